@@ -247,7 +247,8 @@ def main(argv):
         except Exception:
             pass
         print("INCONCLUSIVE harness out of date or build failure: %s\n%s" % (e, tail))
-        write_evidence(pid, prop, args.tier, seed, [], time.time() - t_start, o, 0, [], note="build failed: %s" % e)
+        if not args.no_evidence:
+            write_evidence(pid, prop, args.tier, seed, [], time.time() - t_start, o, 0, [], note="build failed: %s" % e)
         return 2
     print("[%s] overlay+codegen %.0fs, %d stubs applied" % (pid, cg_s, len(stubs_log)), flush=True)
     outcomes = []
